@@ -7,7 +7,7 @@ from hypothesis import strategies as st
 from vlib.core import HypClause, EnumClause
 from vlib import util as U
 
-RULE = ("Composite apertures: Hypothesis draws ring count, samples per segment (6..60), segment size, gap (incl. 0), "
+RULE = ("[Round-7 hardening: the exclusion sequence of the hexagonal aperture is written in a drawn order - ascending, descending, as drawn (unsorted), with entries repeated - and handed over as tuple / list / int64 array / int32 array / range object (when it is an arithmetic progression) / list of numpy integers; a list must come back unchanged; Python sets are not generated: they are not sequences, and the unchanged tree keeps the centres of excluded segments in all_centers for them.]  Composite apertures: Hypothesis draws ring count, samples per segment (6..60), segment size, gap (incl. 0), "
         "orientation, exclusion set, grid parity / padding / aspect (hexagonal; all single exclusions are enumerated) and "
         "centre diameter, ring widths, segments per ring (2..12), radial / azimuthal gaps, per-ring rotations in [-720,1080] degrees (float or int; "
         "angles are periodic, negative values and whole turns are valid) or None (keystone); the coordinate grid is built by the harness (sample i at (i - n//2) dx).  Oracle: documented "
@@ -168,13 +168,41 @@ def build_hex(case, ctx, keep=None):
     rings, d, gap, dx, spp, ny, nx = hex_setup(case)
     x, y = grid(ny, nx, dx, case.get('layout', 'C'))
     total = nhex(rings)
-    excl = sorted(set(int(e) % total for e in case['exclude']))
-    # the documented "sequence of int": tuple, list, or an integer array
+    given = [int(e) % total for e in case['exclude']]
+    excl = sorted(set(given))
+    # the documented "sequence of int": tuple, list, an integer array, a range; written in any order (ascending, descending, as drawn,
+    # with entries repeated) - the exclusion set is the set of its entries.  (Python sets are not sequences and are not generated: the
+    # unchanged tree lists the centres of excluded segments in all_centers for them)
+    order = case.get('exclude_order', 'ascending')
+    first_seen = list(dict.fromkeys(given))
+    seq = {'ascending': excl, 'descending': excl[::-1], 'as-drawn': first_seen,
+           'repeats': first_seen + first_seen[::-1][:max(1, len(first_seen) // 2)] + first_seen[:1]}[order]
     ef = case.get('exclude_form', 'tuple')
-    exarg = tuple(excl) if ef == 'tuple' else list(excl) if ef == 'list' else np.array(excl, dtype=np.int64)
+    if ef == 'range':
+        # a range object when the sequence is an arithmetic progression (any 0, 1 or 2 distinct entries are), else a tuple
+        step = seq[1] - seq[0] if len(seq) > 1 else 1
+        if step != 0 and all(b - a == step for a, b in zip(seq, seq[1:])):
+            exarg = range(seq[0], seq[-1] + (1 if step > 0 else -1), step) if seq else range(0)
+        else:
+            ef, exarg = 'tuple', tuple(seq)
+    elif ef == 'list-of-numpy-ints':
+        exarg = [np.int64(e) if k % 2 else np.int32(e) for k, e in enumerate(seq)]
+    elif ef == 'ndarray-int32':
+        exarg = np.array(seq, dtype=np.int32)
+    else:
+        exarg = tuple(seq) if ef == 'tuple' else list(seq) if ef == 'list' else np.array(seq, dtype=np.int64)
+    unordered = any(b < a for a, b in zip(seq, seq[1:]))
+    ctx.label('exclude-order:' + order, 'exclude-written:' + ('not-ascending' if unordered else 'ascending'), 'exclude-really-as:' + ef,
+              'exclude-has-repeats' if len(seq) != len(set(seq)) else 'exclude-entries-unique')
+    if unordered and rings >= 2 and any(e > 6 for e in seq):
+        ctx.label('exclude:last-entry-not-the-largest:outer-ring-entry' if seq[-1] != max(seq) else 'exclude:unordered-but-last-is-largest')
     if keep is not None:
         keep.arg('x', x), keep.arg('y', y), keep.arg('exclude', exarg)
+    exkeep = list(exarg) if isinstance(exarg, list) else None
     cha = ctx.call(CompositeHexagonalAperture, x, y, rings, d, gap, segment_angle=case['angle'], exclude=exarg)
+    if exkeep is not None:
+        ctx.require(len(exarg) == len(exkeep) and all(a_ is b_ for a_, b_ in zip(exarg, exkeep)), 'hex:argument-modified',
+                    'the exclusion list was modified by the constructor: %r, was %r' % (exarg, exkeep))
     return cha, (rings, d, gap, dx, spp, ny, nx, x, y, total, excl)
 
 
@@ -263,6 +291,10 @@ def check_hex(case, ctx):
     return cha, cnt
 
 
+EXCLUDE_FORMS = ['tuple', 'tuple', 'list', 'ndarray', 'ndarray-int32', 'range', 'list-of-numpy-ints']
+EXCLUDE_ORDERS = ['ascending', 'as-drawn', 'as-drawn', 'descending', 'repeats']
+
+
 def strat_hex(tier):
     rs = [1, 2, 2, 3, 3] if tier == 'quick' else [1, 2, 2, 3, 3, 4, 4]
     return st.sampled_from(rs).flatmap(lambda r: st.fixed_dictionaries({
@@ -270,9 +302,10 @@ def strat_hex(tier):
         'gapf': st.sampled_from([0.0, 0.0, 0.01, 0.035, 0.1, 0.3]), 'sppf': st.integers(0, 20).map(lambda v: v / 20),
         'angle': st.sampled_from([0, 90]), 'parity': st.sampled_from(['odd', 'even']), 'pad': st.integers(0, 9),
         'aspect': st.sampled_from(['square', 'square', 'tall', 'wide']),
-        'exclude': st.one_of(st.just([]), st.just([0]), st.lists(st.sampled_from(range(nhex(r))), max_size=nhex(r), unique=True).map(sorted),
-                             st.lists(st.sampled_from(range(nhex(r))), min_size=1, max_size=4, unique=True).map(sorted)),
-        'layout': U.layouts, 'exclude_form': st.sampled_from(['tuple', 'tuple', 'list', 'ndarray']),
+        'exclude': st.one_of(st.just([]), st.just([0]), st.lists(st.sampled_from(range(nhex(r))), max_size=nhex(r), unique=True),
+                             st.lists(st.sampled_from(range(nhex(r))), min_size=1, max_size=4, unique=True),
+                             st.lists(st.sampled_from(range(nhex(r))), min_size=2, max_size=4, unique=True)),
+        'layout': U.layouts, 'exclude_form': st.sampled_from(EXCLUDE_FORMS), 'exclude_order': st.sampled_from(EXCLUDE_ORDERS),
         'second': st.sampled_from([False, False, False, True]),
         'crop': st.one_of(st.just([1.0, 1.0]), st.just([1.0, 1.0]), st.tuples(st.sampled_from([1.0, 0.8, 0.5, 0.3, 0.15]), st.sampled_from([1.0, 0.8, 0.5, 0.3, 0.15])).map(list)),
     }))
@@ -604,7 +637,7 @@ def strat_hex_opd(tier):
         'rings': st.integers(1, 2), 'd': st.sampled_from([1.0, 0.2, 1.5]), 'gapf': st.sampled_from([0.0, 0.02, 0.1]),
         'sppf': st.integers(0, 6).map(lambda v: v / 20), 'angle': st.sampled_from([0, 90]), 'parity': st.sampled_from(['odd', 'even']),
         'pad': st.integers(0, 5), 'aspect': st.sampled_from(['square', 'tall', 'wide']),
-        'exclude': st.one_of(st.just([]), st.just([0]), st.lists(st.integers(0, 18), max_size=5, unique=True).map(sorted)),
+        'exclude': st.one_of(st.just([]), st.just([0]), st.lists(st.integers(0, 18), max_size=5, unique=True)),
         'basis': st.sampled_from(['zernike', 'xy', 'hopkins']), 'picks': st.lists(st.integers(0, 5), min_size=0, max_size=4),
         'piston_at': st.integers(0, 4), 'norm_radius': st.sampled_from([None, None, 1.0, 0.37]), 'seed': U.seeds,
         'crop': st.one_of(st.just([1.0, 1.0]), st.just([1.0, 1.0]), st.tuples(st.sampled_from([1.0, 0.8, 0.6]), st.sampled_from([1.0, 0.8, 0.6])).map(list)),
@@ -619,7 +652,7 @@ def opd_extras():
     return {'cexp': st.lists(st.one_of(st.integers(-12, 6), st.sampled_from([-12, -10, -9, -8, -7, 0, 0, 3, 6])), min_size=1, max_size=4),
             'csign': st.lists(st.sampled_from([1, -1]), min_size=1, max_size=3),
             'cform': st.sampled_from(COEF_FORMS), 'layout': U.layouts, 'reprepare': st.booleans(),
-            'exclude_form': st.sampled_from(['tuple', 'list', 'ndarray']),
+            'exclude_form': st.sampled_from(EXCLUDE_FORMS), 'exclude_order': st.sampled_from(EXCLUDE_ORDERS),
             # coefficient sets with exactly equal rows (global piston / tilt, one row tiled, a subset of segments moved together)
             'tie': st.fixed_dictionaries({'kind': st.sampled_from(['unit-piston', 'piston', 'tilt', 'row']),
                                           'who': st.sampled_from(['all', 'all', 'groups', 'subset', 'subset+random']),
@@ -943,7 +976,7 @@ def strat_keystone_opd(tier):
             'cbasis': st.sampled_from(['zernike', 'zernike', 'hopkins', 'xy']), 'sbasis': st.sampled_from(['zernike', 'hopkins', 'xy']),
             'picks': st.lists(st.integers(0, 5), min_size=0, max_size=3), 'piston_at': st.integers(0, 3), 'seed': U.seeds,
             'probe': st.lists(st.integers(0, 30), min_size=1, max_size=3),
-            **{k: v for k, v in opd_extras().items() if k != 'exclude_form'},
+            **{k: v for k, v in opd_extras().items() if k not in ('exclude_form', 'exclude_order')},
         })
     return st.integers(1, 2).flatmap(body)
 
